@@ -24,6 +24,11 @@ def plan(tier, seed):
     for q, cms in enumerate((["pixee:python/use-set-literal"], ["pixee:python/use-set-literal", "pixee:python/remove-unnecessary-f-str"], ["pixee:python/use-generator", "pixee:python/use-set-literal"])):
         files = {"a.py": b64(b"x = set([1])\nprint(f'a')\nt = any([i for i in range(3)])\n"), "b_locked.py": b64(b"y = set([2])\nprint(f'b')\nu = all([i for i in range(3)])\n"), "c.py": b64(b"z = set([3])\n")}
         jobs.append({"id": f"write-fault{q}", "files": files, "argv": base + ["--codemod-include", ",".join(cms)], "monitors": {"snap": False, "pipe": False, "faults": [{"kind": "write_error", "file": "b_locked.py"}]}, "want_before": True})
+    # two runs in one process on the same project: the first run meets an unparseable file, the second excludes it - nothing of the first run's bookkeeping belongs in the second report
+    for q, cm in enumerate(("pixee:python/use-set-literal", "pixee:python/fix-assert-tuple", "pixee:python/remove-unnecessary-f-str")):
+        files = {"good.py": b64(b"x = set([1])\nassert (1, 2)\nprint(f'a')\n"), "bad.py": b64(b"def (:\n"), "sub/bad2.py": b64(b"x = set([1]\n")}
+        jobs.append({"id": f"carry-over{q}", "files": files, "argv": [], "steps": [base + ["--codemod-include", cm], base + ["--codemod-include", cm, "--path-exclude", "bad.py,sub/*"]], "excluded": ["bad.py", "sub/bad2.py"],
+                     "monitors": {"snap": False, "pipe": False}, "want_before": True})
     jobs.append({"id": "zero-codemods", "files": {"a.py": b64(b"x = set([1])\n")}, "argv": base + ["--codemod-include", "nope:python/x"], "monitors": {"snap": False}, "want_before": True})
     jobs.append({"id": "zero-files", "files": {}, "argv": base + ["--codemod-include", "pixee:python/use-set-literal"], "monitors": {"snap": False}, "want_before": True})
     jobs.append({"id": "only-nonpython", "files": {"a.txt": b64(b"x")}, "argv": base + ["--codemod-include", "pixee:python/use-set-literal"], "monitors": {"snap": False}, "want_before": True})
@@ -49,7 +54,7 @@ def nlines(blob):
 
 def judge(job, res):
     v = []; st = collections.Counter(); nt = []
-    run = res["runs"][0]
+    run = res["runs"][-1] if job.get("steps") else res["runs"][0]
     if run["rc"] != 0 or run["exc"] or run["report"] is None: st["no_report_or_failed"] += 1; return v, st, nt
     rep = run["report"]; w = {"case": job["id"], "argv": job["argv"]}
     errs = sorted(jsonschema.Draft202012Validator(SCHEMA).iter_errors(rep), key=lambda e: list(e.path))
@@ -77,6 +82,11 @@ def judge(job, res):
                 if not (1 <= c["lineNumber"] <= mx + 1): v.append(Violation("C15", f"line-number-outside-file/{r['codemod'].split('/')[1]}", f"{p}: line {c['lineNumber']} of {mx}", w))
         failed = {os.path.relpath(f, proj) if os.path.isabs(f) else f for f in (r.get("failedFiles") or [])}
         if failed: interesting = True
+        for f_ in sorted(failed & set(job.get("excluded") or [])):
+            v.append(Violation("C15", "failed-file-not-selected-by-this-run", f"{f_} is excluded from this run and listed as failed", w))
+        for f_ in sorted(failed):
+            # a failed file is a file of THIS project (another run's failures, another directory's paths have no business here)
+            if f_.startswith("..") or os.path.isabs(f_) or (f_ not in run["tree"] and f_ not in (run["before_tree"] or {})): v.append(Violation("C15", "failed-file-not-of-this-project", f_, w))
         if failed & changed: v.append(Violation("C15", "failed-and-changed-overlap", str(sorted(failed & changed)), w))
         if r["codemod"].split(":")[0] in ("sonar", "semgrep", "codeql", "defectdojo") and r["changeset"]:      # SAST origins only (plug-in find-and-fix codemods have their own origin)
             if not r.get("detectionTool"): v.append(Violation("C15", "sast-result-without-detection-tool", r["codemod"], w))
